@@ -178,6 +178,93 @@ def rotator_geometry_oracle(chk, rng, n):
             return
 
 
+def edit_histories(chk, rng):
+    """histories on ONE sequence object: solve, change a rotation setting or the units in front of a pass, solve again.  After every solve
+    the profile entering each pass must be the profile leaving the previous pass turned exactly once, by the angle the current arrangement
+    calls for (geometry only: shapely.affinity.rotate of the predecessor's section)"""
+    from pyroll.core import Profile, RollPass, Rotator, Transport, BaseRollPass
+    from shapely.affinity import rotate
+
+    def fresh():
+        seq, objs = build([('pass', 'unset'), ('transport',), ('pass', 'unset'), ('transport',), ('pass', 'unset')], solvable=True)
+        return seq
+
+    def expected_angle(seq, b):
+        units = list(seq.units)
+        i = units.index(b)
+        explicit = None
+        for u in reversed(units[:i]):
+            if isinstance(u, BaseRollPass):
+                break
+            if isinstance(u, Rotator):
+                explicit = float(u.rotation)
+                break
+        setting = b.__dict__.get('rotation', 'unset')
+        if setting != 'unset' and setting is not True:
+            own = 0.0 if setting is False else float(setting)
+        else:
+            own = None                  # automatic: 90 degrees between the round/oval passes used here, unless a rotator is already there
+        if own is not None:
+            return (explicit or 0.0) + own if setting is not True or explicit is None else (explicit or 0.0)
+        return explicit if explicit is not None else 90.0
+
+    def verify(seq, what, data):
+        passes = [u for u in seq.units if isinstance(u, BaseRollPass)]
+        for a, b in zip(passes, passes[1:]):
+            want = expected_angle(seq, b)
+            P, Q = a.out_profile.cross_section, b.in_profile.cross_section
+            chk.cov['evaluations'] += 1
+            best = min((rotate(P, ang, origin=(0, 0)).symmetric_difference(Q).area, ang) for ang in (0.0, 45.0, 60.0, 90.0, 120.0, 135.0, 150.0, 180.0))
+            if rotate(P, want, origin=(0, 0)).symmetric_difference(Q).area > 1e-9 * P.area:
+                chk.fail('turn-history', f"{what}: the profile entering {b.label!r} is the one leaving {a.label!r} turned by {best[1]:g} degrees, the arrangement "
+                         f"calls for exactly one turn by {want:g} degrees", data)
+                return False
+        return True
+    ip = Profile.round(diameter=30e-3, temperature=1473.15, material=["C45", "steel"], length=1)
+    scripts = [
+        [('set', 2, 60), ('set', 2, True)], [('set', 2, 60), ('del', 2)], [('set', 2, 45), ('set', 2, 90), ('del', 2)],
+        [('insert-rotator', 2, 90)], [('insert-rotator', 2, 90), ('drop', 2)], [('prepend-transport',), ('insert-rotator', 3, 90)],
+        [('prepend-transport',)], [('drop', 1), ('insert-rotator', 1, 90)], [('read-rotation',), ('insert-rotator', 2, 90)],
+        [('insert-rotator', 4, 90), ('set', 2, 90), ('del', 2)],
+    ]
+    with RollPass.Profile.flow_stress(flow_stress):
+        for script in scripts:
+            seq = fresh()
+            done = []
+            try:
+                seq.solve(ip)
+            except Exception as e:      # noqa
+                chk.notes.append(f"edit history: initial solve failed ({type(e).__name__})")
+                continue
+            if not verify(seq, "after the first solve", {'script': []}):
+                return
+            for op in script:
+                done.append(op)
+                if op[0] == 'set':
+                    seq[op[1]].rotation = op[2]
+                elif op[0] == 'del':
+                    if 'rotation' in seq[op[1]].__dict__:
+                        del seq[op[1]].rotation
+                elif op[0] == 'insert-rotator':
+                    seq.subunits.insert(op[1], Rotator(label=f"explicit{len(done)}", rotation=op[2]))
+                elif op[0] == 'drop':
+                    seq.drop(op[1])
+                elif op[0] == 'prepend-transport':
+                    seq.subunits.insert(0, Transport(label=f"lead{len(done)}", duration=1, velocity=1.0))
+                elif op[0] == 'read-rotation':
+                    [getattr(u, 'rotation') for u in seq.units if isinstance(u, BaseRollPass)]
+                    continue        # only looked at: the next edit follows without a solve in between
+                data = {'history': ['solve'] + [list(map(str, o)) for o in done] + ['solve']}
+                try:
+                    seq.solve(ip)
+                except Exception as e:      # noqa
+                    # does a fresh sequence of the same arrangement solve?
+                    chk.fail('turn-history', f"after {done} the sequence no longer solves ({type(e).__name__}: {str(e)[:80]}); the first solve of this object succeeded", data)
+                    return
+                if not verify(seq, f"after solve, {', '.join(' '.join(map(str, o)) for o in done)}, solve", data):
+                    return
+
+
 def run(chk):
     _ta.generate(chk)
     chk.coq.add_prop_file('C14.v')
@@ -266,6 +353,8 @@ def run(chk):
                 if sorted(turns[k]) != sorted(explicit + [float(sj)]):
                     chk.fail('turns-angle', f"rotation={sj}: turns {turns[k]} between pass {i} and {j} of {units}", {'units': units, 'auto': auto})
     rotator_geometry_oracle(chk, rng, 40 if not chk.thorough else 400)
+    if not chk.failures:
+        edit_histories(chk, rng)
     chk.cov['rule'] = (f"every arrangement of 1..{maxlen} units over 8 unit kinds (pass unset/True/False/0/45, transport, rotator, cooling pipe) "
                        "containing a pass, for both values of the global switch, plus random arrangements of 5-12 units: "
                        "roll_pass.rotation of every pass on the real unsolved sequence; solved sequences: number and angles of the "
